@@ -112,6 +112,37 @@ func run(r *report.Run, cc *sim.ChainCase) *report.Failure {
 			continue
 		}
 		sb, info, berr := l.BuildBlock(slot, a.Plan)
+		if berr == sim.ErrProposerSlashed && len(l.Sp.ActiveIndices(l.St, l.Sp.CurrentEpoch(l.St))) > 0 {
+			// process_block_header: "assert not proposer.slashed" — a block that is otherwise perfectly
+			// valid and correctly signed by the slashed proposer must be refused
+			pl := *a.Plan
+			pl.BySlashedProposer = true
+			bad, _, e := l.BuildBlock(slot, &pl)
+			if e != nil || bad == nil {
+				r.Class("slashed-proposer-slot:block-not-built")
+				r.Note(fmt.Sprintf("slashed-proposer block not built: %v", e))
+			} else {
+				ref := l.St.Copy()
+				refErr := l.Sp.StateTransition(ref, bad, false)
+				if refErr == nil || !strings.Contains(refErr.Error(), "slashed") {
+					r.Class("slashed-proposer-slot:reference-says-other")
+					r.Note(fmt.Sprintf("slashed-proposer block: reference says %v", refErr))
+				} else {
+					for _, validate := range []bool{true, false} {
+						acc, lerr, pan, _ := libVerdict(l, bad, validate)
+						r.Eval(1)
+						if pan {
+							return report.Failf("panic:HDR-PROPOSER-SLASHED", "block by the slashed proposer at slot %d: library panicked: %v", slot, lerr)
+						}
+						if acc {
+							return report.Failf("accepted-invalid:HDR-PROPOSER-SLASHED", "slot %d: a correctly signed block whose proposer (the slot's proposer) is slashed is accepted (validate_result=%v); the reference says: %v", slot, validate, refErr)
+						}
+					}
+					r.Class("mutation-rejected-by-reference:HDR-PROPOSER-SLASHED")
+					r.NonTrivial(forkNames[bad.Message.Fork] + "|HDR-PROPOSER-SLASHED")
+				}
+			}
+		}
 		if berr == sim.ErrProposerSlashed {
 			res := l.StepSkip(ctx, slot)
 			if res.RefErr != nil || res.LibErr != nil || res.Diff != "" {
